@@ -149,7 +149,8 @@ def build_pool(cs, ctx):
         pool.add("irregular", pd.Series(fill_values(rs, n, cls), index=t),
                  None, f"irregular[n={n},{unit},{cls}]")
     # ---- grids: shapes down to 1x1, acyclic / random (cyclic) / garbage
-    shapes = [(1, 1), (1, 3), (2, 2), (3, 1), (5, 5), (9, 7), (4, 6)]
+    shapes = [(1, 1), (1, 3), (2, 2), (3, 1), (5, 5), (9, 7), (4, 6),
+              (3, 0), (0, 2)]       # ... and grids without columns / rows
     for j in range(cs.between("ngrid", 3, 5)):
         nr, nc = shapes[cs.draw(f"g{j}.shape", len(shapes))]
         cyc = cs.weighted(f"g{j}.cyc", [("acyclic", 6), ("random", 2),
@@ -254,6 +255,31 @@ def build_pool(cs, ctx):
         nan_e[::2, 0] = np.nan
         view, guards = pool.carve(nan_e, "contig_exact", "gxynan")
         pool.add("gridxy", view, guards, "gridxy[edge points with NaN]")
+    # coordinates far outside any grid, infinite or missing, in x and in y
+    wild = np.array([[10.2, -4.8], [10.2, np.nan], [10.2, np.inf],
+                     [10.2, -np.inf], [10.2, 1e300], [10.2, -1e300],
+                     [np.inf, -4.8], [-1e300, -4.8], [np.nan, np.nan],
+                     [1e19, -1e19], [-1e19, 1e19], [10.2, 9.3e18]])
+    wsel = [i for i in range(len(wild)) if cs.flip(f"wild{i}", 60)] or [1]
+    view, guards = pool.carve(wild[wsel], "contig_exact", "gxywild")
+    pool.add("gridxy", view, guards,
+             f"gridxy[{len(wsel)} far / infinite / missing coordinates]")
+    view, guards = pool.carve(wild[wsel], "contig_exact", "ptswild")
+    pool.add("points", view, guards,
+             f"points[{len(wsel)} far / infinite / missing]",
+             {f"P{len(wsel)}"})
+    # coordinate / polygon arrays of other shapes than [n,2]: one column, three
+    # columns, a flat vector (the wrappers must refuse or cope, not over-read)
+    for kind, lab in (("gridxy", "gw"), ("polygon", "pw"), ("points", "qw")):
+        shape = cs.choice(f"{lab}.shape", [(5, 1), (4, 3), (1, 1), (6,),
+                                           (2, 1), (3, 1)])
+        arr = 10.0 + rs.uniform(0, 2, shape)
+        if len(shape) == 1:
+            view, guards = pool.carve(arr, "contig", lab)
+        else:
+            view, guards = pool.carve(arr, "contig_exact", lab)
+        tags = {f"P{shape[0]}"} if kind == "points" else set()
+        pool.add(kind, view, guards, f"{kind}[shape {shape}]", tags)
     return pool
 
 
@@ -273,7 +299,10 @@ def catalogue():
 
     def cell(cs, lab):
         """cell numbers at and beyond the grid: -1, 0, small, large."""
-        return cs.choice(lab, [0, 1, -1, 3, 8, 24, 62, 63, 1000, -5])
+        return cs.choice(lab, [0, 1, -1, 3, 8, 24, 62, 63, 1000, -5,
+                               # valid cell numbers plus multiples of 2^32
+                               2 ** 32, 2 ** 32 + 3, -2 ** 32 + 2,
+                               2 ** 40 + 1])
 
     add("dutils.aggregate", [V, AI],
         lambda a, o: dutils.aggregate(a.ai, a.x, operator=o["op"],
@@ -435,7 +464,11 @@ def catalogue():
         """A catchment description whose cell lists do not fit its grid (made
         for a larger grid, or edited by hand), then the usual methods."""
         n = int(a.fd.nrows * a.fd.ncols)
-        if o.get("negative"):
+        if o.get("negative") == "wrap32":
+            # in-grid numbers shifted by a multiple of 2^32
+            cells = np.array([abs(c) + 2 ** 32 for c in o["cells"]],
+                             dtype=np.int64)
+        elif o.get("negative"):
             # negative cell numbers as they are (-1, -2, -7)
             cells = np.array(o["cells"], dtype=np.int64)
         else:
@@ -456,15 +489,20 @@ def catalogue():
                 c.compute_flowpathlengths()
             elif step == "intersect":
                 out.append(c.intersect(a.g))
+            elif step == "voronoi":
+                out.append(hgrid.voronoi(c, np.array([[10.2, -4.8],
+                                                      [11.0, -4.0]])))
         return out
     add("Catchment.from_dict(cells not fitting the grid) then methods",
         [FD, ("g", "coarse", None)], from_dict_foreign_cells,
         lambda cs: {"cells": [cs.choice(f"c{i}", [0, 1, 2, 5, -1, -2, -7, 3])
                               for i in range(cs.between("nc", 2, 6))],
                     "far": cs.choice("far", [1, 3, 1000, 2 ** 33]),
-                    "negative": cs.flip("negative", 35),
+                    "negative": cs.weighted("negative", [(False, 6), (True, 3),
+                                                         ("wrap32", 2)]),
                     "then": [cs.choice(f"t{i}", ["boundary", "extent",
-                                                 "flowpaths", "intersect"])
+                                                 "flowpaths", "intersect",
+                                                 "voronoi"])
                              for i in range(2)]}, weight=5)
     def small_plus_large(a, o):
         """Boundary of the smaller catchment first, then the sum of the two
